@@ -16,6 +16,7 @@ import ast
 from typing import Dict, List, Optional, Set, Tuple
 
 from ..cfg import cfg_of
+from ..dataflow import Resolver as ExprResolver
 from ..dataflow import flow_of
 from ..engine import Context, Reporter
 from ..model import AnalysisError, ClassInfo, FuncInfo, dotted, norm_text, walk_no_nested
@@ -399,11 +400,82 @@ def rule_b(ctx: Context, R: Reporter, cc: ClassInfo, v: FuncInfo):
     R.analysed["C18.b:dispatch_sites"] = {k: [f"{s[0].short}:{s[3]}" for s in v] for k, v in dispatch.items()}
 
 
+_COERCIONS = {"int", "float", "round", "abs", "bool", "str", "max", "min", "clip", "floor", "ceil", "trunc", "rint", "list", "tuple", "set", "sorted", "unique",
+              "asarray", "array", "astype", "lower", "upper", "strip"}
+
+
+def rule_c(ctx: Context, R: Reporter, cc: ClassInfo, v: FuncInfo):
+    """C18.c  validation sees what the user passed and the stored configuration is
+    what validation saw: in the constructor hook that calls validate(),
+      * before the call, a validated field is only given a default (a value that
+        does not read the field itself), never a conversion of the user's value
+        (`int(self.n_particles)` turns 2.7 into an accepted 2);
+      * after the call, no validated field is re-bound (re-validation by
+        dataclasses.replace() would see a different type than the user's)."""
+    validated: Set[str] = set()
+    for (nd, c, facts) in error_sites(ctx, v):
+        for (a, p) in facts:
+            for x in ast.walk(a):
+                if isinstance(x, ast.Attribute) and isinstance(x.value, ast.Name) and x.value.id == "self" and x.attr in cc.fields():
+                    validated.add(x.attr)
+    R.floor("C18.c", "validated fields", len(validated), 8)
+    hooks = [f for f in ctx.prog.functions.values() if f.cls is cc and f is not v and any(v in [t for t in tg if isinstance(t, FuncInfo)] for (c, tg) in ctx.cg.sites.get(f.qualname, []))]
+    R.floor("C18.c", "constructor hooks calling validate()", len(hooks), 1)
+    n = 0
+    for h in hooks:
+        flow = flow_of(h.node)
+        cfg = flow.cfg
+        vnodes = [flow.node_containing(c) for (c, tg) in ctx.cg.sites.get(h.qualname, []) if v in [t for t in tg if isinstance(t, FuncInfo)]]
+        vnodes = [x for x in vnodes if x is not None]
+        for nd in cfg.stmt_nodes():
+            for c in calls_in_node(nd):
+                fld = val = None
+                if isinstance(c.func, ast.Attribute) and c.func.attr == "__setattr__" and dotted(c.func.value) == "object" and len(c.args) == 3:
+                    fld, val = c.args[1], c.args[2]
+                elif isinstance(c.func, ast.Name) and c.func.id == "setattr" and len(c.args) == 3 and isinstance(c.args[0], ast.Name) and c.args[0].id == "self":
+                    fld, val = c.args[1], c.args[2]
+                if fld is None:
+                    continue
+                names: Optional[Set[str]]
+                if isinstance(fld, ast.Constant) and isinstance(fld.value, str):
+                    names = {fld.value}
+                else:
+                    names = None
+                    if isinstance(fld, ast.Name):
+                        for lp in walk_no_nested(h.node):
+                            if isinstance(lp, ast.For) and isinstance(lp.target, ast.Name) and lp.target.id == fld.id and isinstance(lp.iter, (ast.Tuple, ast.List)) \
+                                    and all(isinstance(e, ast.Constant) for e in lp.iter.elts):
+                                names = {e.value for e in lp.iter.elts}
+                    if names is None:
+                        names = set(validated)  # computed field name: may be any
+                hit = names & validated
+                if not hit:
+                    continue
+                n += 1
+                after = any(cfg.reaches(vn.id, nd.id) for vn in vnodes)
+                before = any(cfg.reaches(nd.id, vn.id) for vn in vnodes)
+                rv = ExprResolver(h.node).resolve(val, nd)
+                reads_self = any((isinstance(x, ast.Attribute) and isinstance(x.value, ast.Name) and x.value.id == "self" and x.attr in hit) or
+                                 (isinstance(x, ast.Call) and dotted(x.func) == "getattr" and len(x.args) >= 2 and isinstance(x.args[0], ast.Name) and x.args[0].id == "self")
+                                 for x in ast.walk(rv))
+                if after:
+                    R.check("C18.c", "no validated field is re-bound after validation", False, h, c,
+                            msg=f"{h.short}: `{unparse(c)[:70]}` re-binds validated field(s) {sorted(hit)} after validate(): the stored configuration is not the one that was validated "
+                                f"(re-validation, e.g. through dataclasses.replace, sees a different type)", key=f"post-validate-rebind:{','.join(sorted(hit))}")
+                elif before:
+                    lossy = [x for x in ast.walk(rv) if isinstance(x, ast.Call) and dotted(x.func).split(".")[-1] in _COERCIONS]
+                    R.check("C18.c", f"`{','.join(sorted(hit))}` is only defaulted, not coerced, before validation", not (reads_self and lossy), h, c,
+                            msg=f"{h.short}: `{unparse(c)[:70]}` converts the user's value of {sorted(hit)} before validate() sees it: an invalid value (wrong type, non-integer) is "
+                                f"silently coerced instead of rejected", key=f"pre-validate-coerce:{','.join(sorted(hit))}")
+    R.floor("C18.c", "assignments to validated fields in the constructor hook", n, 1)
+
+
 def run(ctx: Context, R: Reporter):
     cc = config_class(ctx)
     v = validate_fn(ctx, cc)
     R.guard(rule_a, ctx, R, cc, v)
     R.guard(rule_b, ctx, R, cc, v)
+    R.guard(rule_c, ctx, R, cc, v)
 
 
 def variants():
